@@ -87,15 +87,22 @@ Definition drop_first_last (s : str) : str := removelast (tl s).
 (* s.replace("\\\r\n", "") and s.replace("\\\n", ""): non-overlapping matches, left to right *)
 Fixpoint remove_bs_crlf (s : str) : str :=
   match s with
-  | 92 :: 13 :: 10 :: r => remove_bs_crlf r
-  | c :: r => c :: remove_bs_crlf r
   | [] => []
+  | c :: r =>
+      match r with
+      | c1 :: c2 :: r2 =>
+          if (c =? 92) && (c1 =? 13) && (c2 =? 10) then remove_bs_crlf r2 else c :: remove_bs_crlf r
+      | _ => c :: remove_bs_crlf r
+      end
   end.
 Fixpoint remove_bs_lf (s : str) : str :=
   match s with
-  | 92 :: 10 :: r => remove_bs_lf r
-  | c :: r => c :: remove_bs_lf r
   | [] => []
+  | c :: r =>
+      match r with
+      | c1 :: r1 => if (c =? 92) && (c1 =? 10) then remove_bs_lf r1 else c :: remove_bs_lf r
+      | [] => [c]
+      end
   end.
 Definition unquote (s : str) : str := remove_bs_lf (remove_bs_crlf (drop_first_last s)).
 
@@ -142,8 +149,12 @@ Definition from_str_radix (signed : bool) (lo hi radix : Z) (s : str) : option Z
 (* str::trim_start_matches("0x"): strips the prefix repeatedly *)
 Fixpoint trim_0x (s : str) : str :=
   match s with
-  | 48 :: 120 :: r => trim_0x r
-  | _ => s
+  | c1 :: r1 =>
+      match r1 with
+      | c2 :: r2 => if (c1 =? 48) && (c2 =? 120) then trim_0x r2 else s
+      | [] => s
+      end
+  | [] => s
   end.
 
 (* fn parse_number<T: TryFrom<u32>>: the text is parsed as u32 (decimal or hexadecimal), then converted
